@@ -236,9 +236,9 @@ End C08Example.
 (* the simplest blocks, closed: a FOR block without labels or counter whose body is a run of unlabelled lines whose
    first words are neither FOR nor ROF (flat_bline) is replaced, in one pass, by its body written out count times -
    the derivation of `unrolls` constructed for every such stream (any lines in front, any count expression that
-   evaluates with the symbols in front, any tail), given only that the written-out stream has no FOR left *)
+   evaluates with the symbols in front, any tail), given how the written-out stream unrolls further (k more blocks; k = 0: no FOR left) *)
 Theorem C08_plain_block_unrolls_partial :
-  forall cfg pre forw es body rofw skip rest syms v,
+  forall cfg k final pre forw es body rofw skip rest syms v,
     Forall pline_ok pre ->
     t_typ forw = tokText -> tok_is_pseudo forw = true -> lower_is (t_val forw) "for" = true -> Forall plain_tok es ->
     front_symbols pre = Some syms ->
@@ -247,15 +247,15 @@ Theorem C08_plain_block_unrolls_partial :
     t_typ rofw = tokText -> tok_is_pseudo rofw = true -> lower_is (t_val rofw) "for" = false -> lower_is (t_val rofw) "rof" = true ->
     Forall plain_tok skip -> Forall nonterm rest ->
     let out := flat_map pl_out pre ++ flat_map (fun _ : N => flat_map bl_toks body) (nseq 1 (Z.to_nat v)) ++ rest ++ [tEOF] in
-    unrolls cfg 0 out out ->
-    unrolls cfg 1 (flat_map pl_toks pre ++ (forw :: es ++ [nlt]) ++ flat_map bl_toks body ++ rofw :: skip ++ (nlt :: rest ++ [tEOF])) out.
+    unrolls cfg k out final ->
+    unrolls cfg (S k) (flat_map pl_toks pre ++ (forw :: es ++ [nlt]) ++ flat_map bl_toks body ++ rofw :: skip ++ (nlt :: rest ++ [tEOF])) final.
 Proof. exact flat_block_unrolls. Qed.
 Print Assumptions C08_plain_block_unrolls_partial.
 
 (* the comment idiom: a block without labels or counter whose count is not positive disappears in one pass, whatever
    its body is (any lines, nested blocks included: body_run finds the closing ROF) *)
 Theorem C08_zero_block_unrolls_partial :
-  forall cfg pre forw es body cls rofw skip rest syms v d_at content',
+  forall cfg k final pre forw es body cls rofw skip rest syms v d_at content',
     Forall pline_ok pre ->
     t_typ forw = tokText -> tok_is_pseudo forw = true -> lower_is (t_val forw) "for" = true -> Forall plain_tok es ->
     front_symbols pre = Some syms ->
@@ -265,15 +265,15 @@ Theorem C08_zero_block_unrolls_partial :
     t_typ rofw = tokText -> tok_is_pseudo rofw = true -> lower_is (t_val rofw) "for" = false -> lower_is (t_val rofw) "rof" = true ->
     Forall plain_tok skip -> Forall nonterm rest ->
     let out := flat_map pl_out pre ++ rest ++ [tEOF] in
-    unrolls cfg 0 out out ->
-    unrolls cfg 1 (flat_map pl_toks pre ++ (forw :: es ++ [nlt]) ++ flat_map bl_toks body ++ lbl_seg cls ++ rofw :: skip ++ (nlt :: rest ++ [tEOF])) out.
+    unrolls cfg k out final ->
+    unrolls cfg (S k) (flat_map pl_toks pre ++ (forw :: es ++ [nlt]) ++ flat_map bl_toks body ++ lbl_seg cls ++ rofw :: skip ++ (nlt :: rest ++ [tEOF])) final.
 Proof. exact zero_block_unrolls. Qed.
 Print Assumptions C08_zero_block_unrolls_partial.
 
 (* and with a counter: `c FOR count` over such lines is replaced by the body written out count times with the counter
    replaced by 1 .. count *)
 Theorem C08_counter_block_unrolls_partial :
-  forall cfg pre c forw es body rofw skip rest syms v,
+  forall cfg k final pre c forw es body rofw skip rest syms v,
     Forall pline_ok pre -> is_label c ->
     t_typ forw = tokText -> tok_is_pseudo forw = true -> lower_is (t_val forw) "for" = true -> Forall plain_tok es ->
     front_symbols pre = Some syms ->
@@ -282,8 +282,8 @@ Theorem C08_counter_block_unrolls_partial :
     t_typ rofw = tokText -> tok_is_pseudo rofw = true -> lower_is (t_val rofw) "for" = false -> lower_is (t_val rofw) "rof" = true ->
     Forall plain_tok skip -> Forall nonterm rest ->
     let out := flat_map pl_out pre ++ flat_map (fun j => map (subst_body c [] j) (flat_map bl_toks body)) (nseq 1 (Z.to_nat v)) ++ rest ++ [tEOF] in
-    unrolls cfg 0 out out ->
-    unrolls cfg 1 (flat_map pl_toks pre ++ (mkT tokText c :: forw :: es ++ [nlt]) ++ flat_map bl_toks body ++ rofw :: skip ++ (nlt :: rest ++ [tEOF])) out.
+    unrolls cfg k out final ->
+    unrolls cfg (S k) (flat_map pl_toks pre ++ (mkT tokText c :: forw :: es ++ [nlt]) ++ flat_map bl_toks body ++ rofw :: skip ++ (nlt :: rest ++ [tEOF])) final.
 Proof. exact counter_block_unrolls. Qed.
 Print Assumptions C08_counter_block_unrolls_partial.
 
